@@ -38,7 +38,7 @@ func (m *Method) Simplify() any {
 func (m *Method) Call(s *Scope, args List, depth int) Object {
 	for i, c := range m.Combinations {
 		if c.Wrap != nil {
-			loc := &WhopLoc{Method: m, Current: i}
+			loc := &WhopLoc{Method: m, Current: i, Args: args}
 			ws := s.NewScope()
 			ws.Let("~whopper-location~", loc)
 			(c.Wrap.(*Lambda)).Closure = ws
@@ -80,7 +80,7 @@ func (m *Method) InnerCall(s *Scope, args List, depth int) (result Object) {
 // method instead of the location of an enclosing :around method.
 func (m *Method) primaryCall(s *Scope, i int, args List, depth int) Object {
 	ps := s.NewScope()
-	ps.UnsafeLet("~whopper-location~", &WhopLoc{Method: m, Current: i, Primary: true})
+	ps.UnsafeLet("~whopper-location~", &WhopLoc{Method: m, Current: i, Primary: true, Args: args})
 
 	return m.Combinations[i].Primary.Call(ps, args, depth)
 }
